@@ -111,6 +111,7 @@ impl Tester<'_> {
         }
         acc.res.evaluations += 1;
         let got = streams(&out.log);
+        acc.res.sample(|| J::obj(vec![("iface", J::s(self.iface.name)), ("class", J::s(class)), ("input", J::s(esc(&input))), ("matcher", J::s(format!("{:?}", resolved))), ("observed", J::strs(got.show()))]));
         let verdict = if resolved.len() > 1 {
             Err("the matcher resolves this header to two declarations (generator bug: set is not collision-free)".to_string())
         }
@@ -388,7 +389,9 @@ pub fn run(ctx: &Ctx) -> PropResult {
     res.cov("headers_the_matcher_rejects_by_class", J::Obj(rej.into_iter().map(|(k, v)| (k.to_string(), J::Int(v as i64))).collect()));
     res.cov("standard_command_headers_expected_present", sp);
     res.cov("standard_command_headers_expected_absent", sa);
-    res.samples = vec![J::s("SYSTE:ERR?  (intermediate abbreviation -> exactly one -113)"), J::s(":tst:A?  (optional node omitted, short form, lower case)")];
+    res.samples.truncate(5);
+    let described: Vec<J> = vec![J::s("SYSTE:ERR?  (intermediate abbreviation -> exactly one -113)"), J::s(":tst:A?  (optional node omitted, short form, lower case)")];
+    res.samples.extend(described.into_iter().take(1));
     res.assumptions = vec![
         "declarations are ASCII, every short form starts with a letter, no declaration collides with itself (generator filter)".into(),
         "the header matcher in spec.rs is the reading of the property statement".into(),
